@@ -29,8 +29,10 @@ _kind_counter = [0]
 
 
 def injected(text):
+    # consecutive faults are alternately of the same kind and of different kinds (two faults of one kind and text are
+    # still two faults)
     _kind_counter[0] += 1
-    return _KINDS[_kind_counter[0] % len(_KINDS)](text)
+    return _KINDS[(_kind_counter[0] // 2) % len(_KINDS)](text)
 
 
 # ---------------------------------------------------------------- scenarios
